@@ -152,7 +152,7 @@ Theorem inline_blocks_checked u i o b :
   In (u, i, o, b) (inlines_graph (mmain m) ++ flat_map (fun f => flat_map inlines_node (f_body f)) (mfunctions m))%list ->
   exists n om imps, u = NReal n /\ kind (getn p' n) = KInline om imps /\ alpha_ok om i o b = true.
 Proof.
-  intros Hb. destruct (validators_split p r m inputs outputs Hin Hout Hv) as (_ & _ & _ & _ & _ & _ & _ & _ & _ & H & _).
+  intros Hb. destruct (validators_split p r m inputs outputs Hin Hout Hv) as (_ & _ & _ & _ & _ & _ & _ & _ & _ & _ & H & _).
   unfold inline_blocks_alpha in H. rewrite forallb_forall in H. specialize (H _ Hb). cbn beta iota in H.
   destruct u as [n|g]; [|discriminate]. fold p' in H. destruct (kind (getn p' n)) as [| | |om imps|] eqn:Ek; try discriminate.
   exists n, om, imps. repeat split; assumption.
